@@ -8,6 +8,7 @@ import (
 	"fmt"
 	"math/rand"
 	"net/netip"
+	"reflect"
 	"strings"
 	"testing"
 	"testing/synctest"
@@ -225,7 +226,7 @@ func c05Loop(t *testing.T, c c05LoopCase) (viol [][2]string, gaps []time.Duratio
 		}
 		start := time.Now()
 		done := make(chan struct{})
-		go func() { defer close(done); a.multicast(ctx, ipC) }()
+		go func() { defer close(done); c05Multicast(a, ctx, ipC) }()
 		var at []time.Time
 		bad := func(sig, format string, x ...any) {
 			viol = append(viol, [2]string{sig, fmt.Sprintf("%s: ", ev.JSON(c)) + fmt.Sprintf(format, x...)})
@@ -304,6 +305,10 @@ func TestVerifC05Loop(t *testing.T) {
 	r := ev.Begin("C05", "loop")
 	defer r.End(t)
 	r.Rule = "the real Advertiser.multicast loop under a virtual clock (testing/synctest): 26 (min,max) pairs x 3 start instants (= PRNG seeds) x 6 waits, 3 pairs x 600 consecutive waits, and 3 pairs x a request taken late (by 0.5, 2.5, 7 intervals; at request 1, 2, 4) over an unbuffered channel; oracle: requests start within max, every wait is a whole number of seconds within the bounds (<=16s for the first three), requests recur and stop at cancellation; non-trivial = every run; distinct = distinct (pair, offset)"
+	if !c05MulticastSig() {
+		r.Capped("Advertiser.multicast no longer has the signature (context.Context, chan<- netip.Addr): this narrow-seam part is skipped, part 'recur' drives the loop through the whole Advertiser")
+		return
+	}
 	if r.Replay != nil {
 		var c c05LoopCase
 		if err := json.Unmarshal(r.Replay, &c); err != nil {
@@ -351,4 +356,19 @@ func TestVerifC05Loop(t *testing.T) {
 			}
 		}
 	}
+}
+
+// c05MulticastSig reports whether Advertiser.multicast still has the signature this
+// narrow-seam part drives, (context.Context, chan<- netip.Addr); when a change to the
+// code under test gives it another one, the parts that call it directly are skipped
+// (and say so in the evidence) and the whole-Advertiser 'recur' part decides alone.
+func c05MulticastSig() bool {
+	var a *Advertiser
+	ft := reflect.TypeOf(a.multicast)
+	return ft.NumIn() == 2 && ft.NumOut() == 0
+}
+
+func c05Multicast(a *Advertiser, ctx context.Context, ipC chan netip.Addr) {
+	f := reflect.ValueOf(a.multicast)
+	f.Call([]reflect.Value{reflect.ValueOf(ctx), reflect.ValueOf(ipC).Convert(f.Type().In(1))})
 }
